@@ -22,6 +22,13 @@ let () =
           let f = split_tab line in
           print_string (List.hd f ^ "\t" ^ model_obs f ^ "\n"))
         (read_lines cases)
+  | [ _; "expand"; cases ] ->
+      List.iter
+        (fun line ->
+          match Spec.expand (split_tab line) with
+          | Some l -> print_string (l ^ "\n")
+          | None -> print_string (line ^ "\n"))
+        (read_lines cases)
   | [ _; "check"; cases; obs ] ->
       let cl = read_lines cases and ol = read_lines obs in
       if List.length cl <> List.length ol then begin
